@@ -24,6 +24,7 @@ var (
 	flagSolver    = flag.String("solver", "", "override solver back end")
 	flagOut       = flag.String("evidence", "/verif/evidence", "evidence directory")
 	flagMaxPaths  = flag.Int("maxpaths", 3000, "debug: path cap for -sym")
+	flagLazy      = flag.Bool("lazy", false, "debug: lazy branching for -sym")
 	flagProfile   = flag.String("cpuprofile", "", "debug: write CPU profile")
 	flagConform   = flag.Bool("conform", false, "run the encoder conformance corpus only")
 	flagSolverLog = flag.String("solverlog", "", "debug: write solver transcript of worker 0 to this file")
@@ -128,6 +129,7 @@ func debugRun(spec string, symbolic bool) int {
 		solver.log = f
 	}
 	m := NewMachine(sh, solver)
+	m.lazy = *flagLazy
 	queue := [][]int32{nil}
 	paths := 0
 	t0 := time.Now()
